@@ -2,13 +2,386 @@ package props
 
 import (
 	"encoding/json"
+	"fmt"
+	"strings"
+	"time"
+	"unicode/utf8"
 
+	"github.com/verily-src/fhirpath-go/fhirpath"
+	"github.com/verily-src/fhirpath-go/fhirpath/compopts"
+	"github.com/verily-src/fhirpath-go/fhirpath/evalopts"
+	"github.com/verily-src/fhirpath-go/fhirpath/system"
 	"github.com/verily-src/fhirpath-go/fhirpath/verifharness/core"
+	"github.com/verily-src/fhirpath-go/fhirpath/verifharness/fx"
+	"github.com/verily-src/fhirpath-go/fhirpath/verifharness/gen"
+	"github.com/verily-src/fhirpath-go/fhirpath/verifharness/model"
+	"github.com/verily-src/fhirpath-go/internal/fhir"
 )
 
-func c01Stream2(env *core.Env) {}
-func c01Stream3(env *core.Env) {}
+// ctxFromTree derives non-vacuous paths by category from a resource's tree.
+func ctxFromTree(t *model.Node, funcNames []string) *gen.ProgCtx {
+	c := &gen.ProgCtx{Root: t.Name, FuncNames: funcNames, WrongRoot: "Observation"}
+	if t.Name == "Observation" {
+		c.WrongRoot = "Patient"
+	}
+	seen := map[string]bool{}
+	for _, n := range t.All() {
+		if n.Parent == nil {
+			continue
+		}
+		p := n.PathTo()
+		key := strings.Join(p, ".")
+		if seen[key] || len(p) > 5 {
+			continue
+		}
+		seen[key] = true
+		add := func(dst *[][]string) {
+			if len(*dst) < 14 {
+				*dst = append(*dst, p)
+			}
+		}
+		if n.Synth != nil {
+			add(&c.StrPaths)
+			continue
+		}
+		if n.IsPrim {
+			switch string(n.MD.Name()) {
+			case "Integer", "PositiveInt", "UnsignedInt", "Decimal":
+				add(&c.NumPaths)
+			case "Boolean":
+				add(&c.BoolPaths)
+			case "Date", "DateTime", "Instant", "Time":
+				add(&c.DatePaths)
+			case "Base64Binary":
+				add(&c.AnyPaths)
+			default:
+				add(&c.StrPaths)
+			}
+			continue
+		}
+		if len(n.Parent.KidsNamed(n.Name)) > 1 {
+			add(&c.CollPaths)
+		} else {
+			add(&c.AnyPaths)
+		}
+	}
+	if len(c.CollPaths) == 0 {
+		c.CollPaths = append(c.CollPaths, []string{"extension"})
+	}
+	if len(c.AnyPaths) == 0 {
+		c.AnyPaths = append(c.AnyPaths, []string{"meta"})
+	}
+	if len(c.StrPaths) == 0 {
+		c.StrPaths = append(c.StrPaths, []string{"id"})
+	}
+	if len(c.NumPaths) == 0 {
+		c.NumPaths = append(c.NumPaths, []string{"meta", "extension"})
+	}
+	if len(c.BoolPaths) == 0 {
+		c.BoolPaths = append(c.BoolPaths, []string{"meta", "id"})
+	}
+	if len(c.DatePaths) == 0 {
+		c.DatePaths = append(c.DatePaths, []string{"meta", "lastUpdated"})
+	}
+	return c
+}
+
+var overrideTimes = []struct {
+	name string
+	t    *time.Time
+}{
+	{"none", nil},
+	{"zero", ptrTime(time.Time{})},
+	{"year1", ptrTime(time.Date(1, 1, 1, 0, 0, 0, 0, time.UTC))},
+	{"leap+0530", ptrTime(time.Date(2024, 2, 29, 23, 59, 59, 999000000, time.FixedZone("", 19800)))},
+	{"year9999", ptrTime(time.Date(9999, 12, 31, 23, 59, 59, 999999999, time.UTC))},
+	{"year10000", ptrTime(time.Date(10000, 1, 1, 0, 0, 0, 0, time.UTC))},
+	{"neg-year", ptrTime(time.Date(-5, 6, 7, 8, 9, 10, 0, time.FixedZone("", -39600)))},
+}
+
+func ptrTime(t time.Time) *time.Time { return &t }
+
+// compileOptSets: descriptors of compile option sets.
+var compileOptSets = []string{"none", "experimental", "permissive", "addfn-good", "addfn-malformed", "addfn-builtin", "dup"}
+
+func goodCustom(in system.Collection, s system.String) (system.Collection, error) {
+	return append(system.Collection{s}, in...), nil
+}
+
+func buildCompileOpts(name string) []fhirpath.CompileOption {
+	switch name {
+	case "experimental":
+		return []fhirpath.CompileOption{compopts.WithExperimentalFuncs()}
+	case "permissive":
+		return []fhirpath.CompileOption{compopts.Permissive()}
+	case "addfn-good":
+		return []fhirpath.CompileOption{compopts.AddFunction("custom", goodCustom), compopts.WithExperimentalFuncs()}
+	case "addfn-malformed":
+		return []fhirpath.CompileOption{compopts.AddFunction("bad", func(int) int { return 0 }), compopts.AddFunction("worse", 42)}
+	case "addfn-builtin":
+		return []fhirpath.CompileOption{compopts.AddFunction("where", goodCustom)}
+	case "dup":
+		return []fhirpath.CompileOption{compopts.AddFunction("custom", goodCustom), compopts.AddFunction("custom", goodCustom), compopts.Permissive(), compopts.Permissive()}
+	}
+	return nil
+}
+
+// c01Tree evaluates one source with the given inputs/option descriptors through Evaluate and the EvaluateAs* helpers.
+func c01Source(env *core.Env, stream, src, resType string, resSeed uint64, rich bool, copt, otime string, nInputs int) {
+	defer env.In("src", stream, src, resType, resSeed, rich, copt, otime, nInputs)()
+	var in []fhir.Resource
+	switch {
+	case resType == "":
+		in = []fhir.Resource{gen.StdPatient()}
+	default:
+		r, _ := genResource(resType, resSeed, rich)
+		in = []fhir.Resource{r}
+	}
+	switch nInputs {
+	case 0:
+		in = nil
+	case 2:
+		in = append(in, gen.StdPatient())
+	case -1:
+		in = []fhir.Resource{}
+	}
+	eo := gen.EnvOpts(gen.StdEnv())
+	for _, ot := range overrideTimes {
+		if ot.name == otime && ot.t != nil {
+			eo = append(eo, evalopts.OverrideTime(*ot.t))
+		}
+	}
+	if otime == "dup-env" {
+		eo = append(eo, evalopts.EnvVariable("fint", system.Integer(1)), evalopts.EnvVariable("bad", 42), evalopts.EnvVariable("context", system.Integer(1)))
+	}
+	env.Case()
+	ex, cr := fx.Compile(env, src, buildCompileOpts(copt)...)
+	if ex == nil {
+		c01Judge(env, stream, "compile:"+copt, src, cr)
+		return
+	}
+	if ex.String() != src {
+		env.Violatef("C01/expression-string-differs", "Expression.String() = %q for source %q", ex.String(), src)
+	}
+	r := fx.Evaluate(env, ex, in, eo...)
+	c01Judge(env, stream, "eval:"+copt+":"+otime, src, r)
+	// EvaluateAs* helpers
+	helpers := []struct {
+		name string
+		f    func()
+	}{
+		{"EvaluateAsString", func() { ex.EvaluateAsString(in, eo...) }},
+		{"EvaluateAsBool", func() { ex.EvaluateAsBool(in, eo...) }},
+		{"EvaluateAsInt32", func() { ex.EvaluateAsInt32(in, eo...) }},
+		{"EvaluateAsCanonical", func() { ex.EvaluateAsCanonical(in, eo...) }},
+	}
+	for _, h := range helpers {
+		out := env.Guard(h.name+" "+src, h.f)
+		env.Eval(1)
+		if out.Panicked || out.Dead {
+			rr := fx.Res{Kind: "panic", Out: out}
+			if out.Dead {
+				rr.Kind = "dead"
+			}
+			env.Violatef(fx.PanicSig("C01", rr), "%s: %s(`%s`) => %s", stream, h.name, src, rr.Short())
+		}
+	}
+}
+
+func replayC01Src(env *core.Env, a []json.RawMessage) {
+	var stream, src, resType, copt, otime string
+	var seed uint64
+	var rich bool
+	var nIn int
+	json.Unmarshal(a[0], &stream)
+	json.Unmarshal(a[1], &src)
+	json.Unmarshal(a[2], &resType)
+	json.Unmarshal(a[3], &seed)
+	json.Unmarshal(a[4], &rich)
+	json.Unmarshal(a[5], &copt)
+	json.Unmarshal(a[6], &otime)
+	json.Unmarshal(a[7], &nIn)
+	c01Source(env, stream, src, resType, seed, rich, copt, otime, nIn)
+	fmt.Printf("replayed source %q\n", src)
+}
+
+func c01Stream2(env *core.Env) {
+	names := funcNames()
+	rng := env.Rng("stream2")
+	types := gen.ResourceTypes()
+	total := env.Size(12000, 600000)
+	cats := []string{"any", "num", "str", "bool", "date", "coll"}
+	// a small number of generated resources, each reused for many programs
+	var pctx *gen.ProgCtx
+	var resType string
+	var resSeed uint64
+	var rich bool
+	for i := 0; i < total; i++ {
+		if i%40 == 0 {
+			if rng.Intn(4) == 0 {
+				resType, pctx = "", gen.StdProgCtx(names)
+			} else {
+				resType = string(types[rng.Intn(len(types))].Name())
+				resSeed = rng.Next() % 100000
+				rich = rng.Intn(3) == 0
+				pctx = nil
+			}
+		}
+		sub := rng.Fork("p")
+		if !env.Mine(i) {
+			continue
+		}
+		if pctx == nil {
+			r, _ := genResource(resType, resSeed, rich)
+			t, err := model.BuildTree(r)
+			if err != nil {
+				pctx = gen.StdProgCtx(names)
+				resType = ""
+			} else {
+				pctx = ctxFromTree(t, names)
+			}
+		}
+		g := &gen.ProgGen{R: sub, Ctx: pctx}
+		tree := g.Gen(cats[sub.Intn(len(cats))], 1+sub.Intn(6))
+		src := gen.Join(tree.Tokens(false))
+		copt := compileOptSets[0]
+		if sub.Intn(3) == 0 {
+			copt = compileOptSets[sub.Intn(len(compileOptSets))]
+		} else if sub.Intn(2) == 0 {
+			copt = "experimental"
+		}
+		ot := "none"
+		if sub.Intn(4) == 0 {
+			ot = overrideTimes[sub.Intn(len(overrideTimes))].name
+		} else if sub.Intn(30) == 0 {
+			ot = "dup-env"
+		}
+		nIn := 1
+		switch sub.Intn(30) {
+		case 0:
+			nIn = 0
+		case 1:
+			nIn = 2
+		case 2:
+			nIn = -1
+		}
+		c01Source(env, "stream2", src, resType, resSeed, rich, copt, ot, nIn)
+		env.Cover("stream2/tree")
+	}
+}
+
+// seedSources are expressions in the style of the repository's own tests.
+var seedSources = []string{
+	"Patient.name.given", "Patient.name.where(use = 'official').given.first()", "Patient.telecom.where(system = 'phone').value",
+	"Patient.name.given.count() > 1", "Patient.birthDate < today()", "Patient.active and Patient.deceased", "Patient.name.family & ', ' & Patient.name.given.first()",
+	"Patient.name.select(given.first() + ' ' + family)", "Patient.extension('http://example.org/ext/a').value", "(1 + 2) * 3 = 9", "@2020-01-01 + 1 month", "'abc'.substring(1, 1)",
+	"Patient.name.exists(family = 'Smith')", "Patient.name.all(given.exists())", "iif(Patient.active, 'a', 'b')", "Patient.contact.name.family.upper()", "Patient.descendants().count()",
+	"Patient.children().exists()", "1 'mg' = 1 'mg'", "now() > @2000-01-01T00:00:00Z", "%context.id", "%ucum", "Patient.name[0].given[1]", "Patient.multipleBirth as integer", "Patient.deceased is boolean",
+	"Patient.name.given.distinct().count()", "Patient.name.given.join(',')", "Patient.telecom.rank.first() div 2", "-1.abs()", "10 mod 3", "5 / 2", "'a' in ('a' | 'b')", "{}.empty()", "Patient.name.skip(1).take(1).family",
+	"Patient.managingOrganization.reference", "Patient.name.intersect(Patient.name)", "Patient.name.given.exclude('Ann')", "3.14159.round()", "'1'.toInteger() + 1", "@T10:30 + 90 minutes", "today().toString().length()",
+}
+
+func mutate(src string, r *core.Rng) string {
+	b := []byte(src)
+	n := 1 + r.Intn(3)
+	for k := 0; k < n; k++ {
+		if len(b) == 0 {
+			b = []byte("a")
+		}
+		pos := r.Intn(len(b) + 1)
+		switch r.Intn(9) {
+		case 0: // delete a byte
+			if pos < len(b) {
+				b = append(b[:pos], b[pos+1:]...)
+			}
+		case 1: // insert punctuation
+			p := "()[]{}.,'`\"%$@+-*/&|<>=!~\\: \t\n"
+			b = append(b[:pos], append([]byte{p[r.Intn(len(p))]}, b[pos:]...)...)
+		case 2: // duplicate a span
+			if pos < len(b) {
+				end := pos + 1 + r.Intn(8)
+				if end > len(b) {
+					end = len(b)
+				}
+				span := append([]byte{}, b[pos:end]...)
+				b = append(b[:end], append(span, b[end:]...)...)
+			}
+		case 3: // flip a bit
+			if pos < len(b) {
+				b[pos] ^= 1 << uint(r.Intn(8))
+			}
+		case 4: // insert a keyword/token
+			toks := []string{" and ", " or ", " is ", " as ", " div ", " mod ", "$this", "$index", "$total", "%x", "%`a b`", "%'q'", "{}", "@2020-13", "@T25", "1e5", ".", "..", "()", "true", " implies ", "'\\u00e9'", "'\\q'", "0x1F", "1.", ".5", "@2020-02-30", "@2020-01-01T10:00:00+25:00", "99999999999", "`x`", "`", "/*", "*/", "//"}
+			t := toks[r.Intn(len(toks))]
+			b = append(b[:pos], append([]byte(t), b[pos:]...)...)
+		case 5: // random unicode rune
+			runes := []rune{0xE9, 0x20AC, 0x1F600, 0x301, 0xFEFF, 0x2028, 0, 0x7F, 0xFFFD, 0x10FFFF}
+			var buf [4]byte
+			l := utf8.EncodeRune(buf[:], runes[r.Intn(len(runes))])
+			b = append(b[:pos], append(buf[:l:l], b[pos:]...)...)
+		case 6: // truncate
+			b = b[:pos]
+		case 7: // swap two bytes
+			if len(b) > 1 {
+				q := r.Intn(len(b))
+				p2 := pos % len(b)
+				b[p2], b[q] = b[q], b[p2]
+			}
+		case 8: // raw random byte
+			b = append(b[:pos], append([]byte{byte(r.Intn(256))}, b[pos:]...)...)
+		}
+	}
+	if len(b) > 2048 {
+		b = b[:2048]
+	}
+	return string(b)
+}
+
+func c01Stream3(env *core.Env) {
+	names := funcNames()
+	rng := env.Rng("stream3")
+	total := env.Size(8000, 400000)
+	pctx := gen.StdProgCtx(names)
+	for i := 0; i < total; i++ {
+		sub := rng.Fork("m")
+		if !env.Mine(i) {
+			continue
+		}
+		var base string
+		switch sub.Intn(4) {
+		case 0:
+			base = seedSources[sub.Intn(len(seedSources))]
+		case 1:
+			// arbitrary bytes
+			n := sub.Intn(24)
+			bb := make([]byte, n)
+			for k := range bb {
+				bb[k] = byte(sub.Intn(256))
+			}
+			base = string(bb)
+		case 2:
+			// deep but bounded nesting
+			d := 1 + sub.Intn(60)
+			open := []string{"(", "iif(true,", "Patient.where(", "-", "(1+"}[sub.Intn(5)]
+			cl := map[string]string{"(": ")", "iif(true,": ")", "Patient.where(": ")", "-": "", "(1+": ")"}[open]
+			base = strings.Repeat(open, d) + "1" + strings.Repeat(cl, d)
+		default:
+			g := &gen.ProgGen{R: sub, Ctx: pctx}
+			base = gen.Join(g.Gen("any", 1+sub.Intn(4)).Tokens(sub.Bool()))
+		}
+		src := base
+		if sub.Intn(6) != 0 {
+			src = mutate(base, sub)
+		}
+		copt := "experimental"
+		if sub.Intn(5) == 0 {
+			copt = compileOptSets[sub.Intn(len(compileOptSets))]
+		}
+		c01Source(env, "stream3", src, "", 0, false, copt, "none", 1)
+		env.Cover("stream3/mutated")
+	}
+}
+
 func c01Stream4(env *core.Env) {}
 
 func replayC01Patch(env *core.Env, a []json.RawMessage) {}
-func replayC01Src(env *core.Env, a []json.RawMessage)   {}
